@@ -34,6 +34,16 @@ Ents(kind) == {i \in 1..Len(pool) : pool[i].k = kind /\ ~pool[i].err}
 New(kind, v, term) == [n |-> Name(Len(pool) + 1), k |-> kind, err |-> FALSE, v |-> v, term |-> term]
 NewErr(kind, term) == [n |-> Name(Len(pool) + 1), k |-> kind, err |-> TRUE, v |-> <<>>, term |-> term]
 
+\* clear() returns Mapping<K, ?>: no value type, hence no derived hash
+IdxOf(nm) == CHOOSE j \in 1..Len(pool) : pool[j].n = nm
+RECURSIVE IsClear(_)
+IsClear(i) ==
+    LET t == pool[i].term
+    IN IF t.k # "call" THEN FALSE
+       ELSE IF t.f = "clear" THEN TRUE
+       ELSE IF t.f = "set" THEN FALSE          \* set binds the value type again
+       ELSE \E a \in 1..Len(t.args) :
+               t.args[a].k = "var" /\ pool[IdxOf(t.args[a].n)].k = "map" /\ IsClear(IdxOf(t.args[a].n))
 \* abstract mapping: function from classes to int values
 MSet(m, k, v) == [c \in DOMAIN m \cup {Class(k)} |-> IF c = Class(k) THEN v ELSE m[c]]
 MDel(m, k) == [c \in DOMAIN m \ {Class(k)} |-> m[c]]
@@ -41,6 +51,10 @@ RECURSIVE MUpdate(_, _, _), MCount(_, _, _), SAddAll(_, _, _)
 MUpdate(m, kvs, i) == IF i > Len(kvs) THEN m ELSE MUpdate(MSet(m, kvs[i][1], kvs[i][2]), kvs, i + 1)
 MCount(m, ks, i) == IF i > Len(ks) THEN m
                     ELSE MCount(MSet(m, ks[i], (IF Class(ks[i]) \in DOMAIN m THEN m[Class(ks[i])] ELSE 0) + 1), ks, i + 1)
+RECURSIVE MFromKeys(_, _, _)
+\* update_from_keys: on_vacant = 100, on_occupied = v + 1, key by key
+MFromKeys(m, ks, i) == IF i > Len(ks) THEN m
+                       ELSE MFromKeys(MSet(m, ks[i], IF Class(ks[i]) \in DOMAIN m THEN m[Class(ks[i])] + 1 ELSE 100), ks, i + 1)
 SAddAll(s, ks, i) == IF i > Len(ks) THEN s ELSE SAddAll(s \cup {Class(ks[i])}, ks, i + 1)
 EmptyMap == [c \in {} |-> 0]
 
@@ -52,7 +66,7 @@ MapOp(rr) ==
     LET S == Ents("map")
     IN IF S = {} THEN New("map", EmptyMap, Raw("MK_MAP"))
     ELSE
-    LET i == Ch(S, rr[1]) m == pool[i].v  o == Ch(1..14, rr[2])  k == Ch(Keys, rr[3])  x == Ch(10..99, rr[4])
+    LET i == Ch(S, rr[1]) m == pool[i].v  o == Ch(1..20, rr[2])  k == Ch(Keys, rr[3])  x == Ch(10..99, rr[4])
         present == Class(k) \in DOMAIN m
     IN CASE o = 1 -> New("map", MSet(m, k, x), Call("set", <<V(i), Lit(k), Lit(x)>>))
          [] o = 2 -> New("map", IF present THEN m ELSE MSet(m, k, x), Call("set_default", <<V(i), Lit(k), Lit(x)>>))
@@ -74,6 +88,21 @@ MapOp(rr) ==
                       IN New("map", MCount(m, ks, 1), Call("update_counter", <<V(i), Call("to_generator", <<ArrOf(ks)>>)>>))
          [] o = 12 -> New("val", IntV(Cardinality(DOMAIN m)), Call("len", <<V(i)>>))
          [] o = 13 -> New("map", EmptyMap, Call("clear", <<V(i)>>))
+         \* ---- second batch (std/mapping.md) ----
+         [] o = 14 -> New("bag", SetToSortSeq(DOMAIN m, LAMBDA a, b : a < b), Call("to_array", <<Call("keys", <<V(i)>>)>>))
+         [] o = 15 -> LET ks == SetToSortSeq(DOMAIN m, LAMBDA a, b : a < b)
+                      IN New("vals", SortSeq([j \in 1..Len(ks) |-> m[ks[j]]], LAMBDA a, b : a < b), Call("to_array", <<Call("values", <<V(i)>>)>>))
+         [] o = 16 -> New("map", [c \in DOMAIN m |-> m[c] + 1], Call("map_values", <<V(i), Raw("(v: int) -> {v + 1}")>>))
+         [] o = 17 -> LET n == Ch(0..4, rr[3]) ks == KeyList(rr, n)
+                      IN New("map", MFromKeys(m, ks, 1),
+                             Call("update_from_keys", <<V(i), ArrOf(ks), Raw("(k: int) -> {100}"), Raw("(k: int, v: int) -> {v + 1}")>>))
+         [] o = 18 -> New("pairs", LET ks == SetToSortSeq(DOMAIN m, LAMBDA a, b : a < b) IN [j \in 1..Len(ks) |-> <<ks[j], m[ks[j]]>>],
+                          Call("to_array", <<Call("to_generator", <<V(i)>>)>>))
+         \* equal mappings hash equally (whatever their histories and layouts)
+         [] o = 19 -> LET j == Ch(S, rr[3])
+                      IN IF DOMAIN m = DOMAIN pool[j].v /\ (\A c \in DOMAIN m : m[c] = pool[j].v[c]) /\ ~IsClear(i) /\ ~IsClear(j)
+                           THEN New("val", BoolV(TRUE), Op2("eq", Call("hash", <<V(i)>>), Call("hash", <<V(j)>>)))
+                           ELSE New("val", IntV(Cardinality(DOMAIN m)), Call("len", <<V(i)>>))
          [] OTHER -> LET j == Ch(S, rr[3])
                      IN New("val", BoolV(DOMAIN m = DOMAIN pool[j].v /\ \A c \in DOMAIN m : m[c] = pool[j].v[c]), Op2("eq", V(i), V(j)))
 
@@ -81,7 +110,7 @@ SetOp(rr) ==
     LET S == Ents("set")
     IN IF S = {} THEN New("set", {}, Raw("MK_SET"))
     ELSE
-    LET i == Ch(S, rr[1]) s == pool[i].v  o == Ch(1..17, rr[2])  k == Ch(Keys, rr[3])  j == Ch(S, rr[4])  t == pool[j].v
+    LET i == Ch(S, rr[1]) s == pool[i].v  o == Ch(1..21, rr[2])  k == Ch(Keys, rr[3])  j == Ch(S, rr[4])  t == pool[j].v
         present == Class(k) \in s
     IN CASE o = 1 -> New("set", s \cup {Class(k)}, Call("add", <<V(i), Lit(k)>>))
          [] o = 2 -> IF present THEN New("set", s \ {Class(k)}, Call("remove", <<V(i), Lit(k)>>))
@@ -101,6 +130,12 @@ SetOp(rr) ==
          [] o = 14 -> New("val", BoolV(s \cap t = {}), Call("is_disjoint", <<V(i), V(j)>>))
          [] o = 15 -> New("val", IntV(Cardinality(s)), Call("len", <<V(i)>>))
          [] o = 16 -> New("set", {}, Call("clear", <<V(i)>>))
+         [] o = 17 -> New("val", BoolV(t \subseteq s /\ s # t), Op2("gt", V(i), V(j)))
+         [] o = 18 -> New("bag", SetToSortSeq(s, LAMBDA a, b : a < b), Call("to_array", <<V(i)>>))
+         [] o = 19 -> LET n == Ch(0..4, rr[3]) ks == KeyList(rr, n)
+                      IN New("set", SAddAll(s, ks, 1), Call("update", <<V(i), Call("to_generator", <<ArrOf(ks)>>)>>))
+         [] o = 20 -> IF s = t THEN New("val", BoolV(TRUE), Op2("eq", Call("hash", <<V(i)>>), Call("hash", <<V(j)>>)))
+                      ELSE New("val", IntV(Cardinality(s)), Call("len", <<V(i)>>))
          [] OTHER -> New("set", s \cup {Class(k)}, Call("add", <<V(i), Lit(k)>>))
 
 Init == /\ pool = <<>> /\ step = 0 /\ r = <<>>
@@ -118,6 +153,9 @@ ProjE(e) ==
     ELSE IF e.k = "map" THEN LET ks == SetToSortSeq(DOMAIN e.v, LAMBDA a, b : a < b)
                              IN [t |-> "absmap", v |-> [j \in 1..Len(ks) |-> <<ks[j], e.v[ks[j]]>>]]
     ELSE IF e.k = "set" THEN [t |-> "absset", v |-> SetToSortSeq(e.v, LAMBDA a, b : a < b)]
+    ELSE IF e.k = "bag" THEN [t |-> "absbag", v |-> e.v]        \* classes, sorted
+    ELSE IF e.k = "vals" THEN [t |-> "absvals", v |-> e.v]      \* values, sorted
+    ELSE IF e.k = "pairs" THEN [t |-> "abspairs", v |-> e.v]    \* (class, value), sorted by class
     ELSE Proj(e.v)
 
 Emit == (step = Steps) =>
